@@ -172,9 +172,10 @@ Definition interpolate2 (s : st) (xs ys : list Q) : st * res unit :=
 (** the function evaluated on the abscissae themselves *)
 Definition interpolate (s : st) (xs : list Q) : st * res unit := interpolate2 s xs xs.
 
-(** int(width / (1e-8 * tableWidth)), 0 when not positive *)
-Definition fit (width tableWidth : Q) : nat :=
-  Z.to_nat (Qfloor (width / ((1 # 100000000) * tableWidth))).
+(** min(p, int(width / (1e-8 * tableWidth))), 0 when not positive (computed in Z: the quotient
+    is typically ~1e8) *)
+Definition fit (p : nat) (width tableWidth : Q) : nat :=
+  Z.to_nat (Z.min (Z.of_nat p) (Qfloor (width / ((1 # 100000000) * tableWidth)))).
 
 Definition newTable (s : st) (a b : Q) (n : nat) : st * res unit :=
   interpolate s (linspace a b n).
@@ -183,8 +184,8 @@ Definition extend (s : st) (newMin newMax : Q) (pLo pHi : nat) : st * res unit :
   if negb (hasT s) then newTable s newMin newMax (pLo + pHi) else
   (* at most as many points as fit at 1e-8 of the table width (an extension by a few ulp
      appends nothing) *)
-  let pLo := Nat.min pLo (fit (rmin s - newMin) (rmax s - rmin s)) in
-  let pHi := Nat.min pHi (fit (newMax - rmax s) (rmax s - rmin s)) in
+  let pLo := fit pLo (rmin s - newMin) (rmax s - rmin s) in
+  let pHi := fit pHi (newMax - rmax s) (rmax s - rmin s) in
   let lo := if Qlt_bool newMin (rmin s) && (0 <? pLo)%nat
             then linspace_open newMin (rmin s) pLo else [] in
   let hi := if Qlt_bool (rmax s) newMax && (0 <? pHi)%nat
@@ -373,15 +374,19 @@ Definition Qlist_eqb (a b : list Q) : bool :=
 (** knots are compared up to 2^-40: interior knots of np.linspace with a non-dyadic step are
     rounded by the implementation *)
 Definition Qclose (a b : Q) : bool := Qle_bool (Qabs (a - b)) (1 # 1099511627776).
+(* abscissae that are interior points of an np.linspace with a non-dyadic step are rounded by the
+   implementation and exact in the model; they can also become a table END (non-finite end rows
+   dropped) and then appear in tags and in the range.  Which side of an end a point lies on is
+   never decided by this tolerance: the classification is part of the tag (KIn/KExt, Spl/Dir). *)
 Definition Qlist_close (a b : list Q) : bool :=
   (length a =? length b)%nat && forallb (fun p => Qclose (fst p) (snd p)) (combine a b).
 Definition kind_eqb (a b : kind) : bool :=
   match a, b with KIn, KIn | KExt, KExt | KNan, KNan => true | _, _ => false end.
 Definition tag_eqb (a b : tag) : bool :=
   match a, b with
-  | Spl d k q, Spl d' k' q' => (d =? d')%nat && kind_eqb k k' && Qeq_bool q q'
-  | Dir q, Dir q' => Qeq_bool q q'
-  | DirNaN q, DirNaN q' => Qeq_bool q q'
+  | Spl d k q, Spl d' k' q' => (d =? d')%nat && kind_eqb k k' && Qclose q q'
+  | Dir q, Dir q' => Qclose q q'
+  | DirNaN q, DirNaN q' => Qclose q q'
   | Uninit, Uninit => true
   | _, _ => false
   end.
@@ -414,8 +419,8 @@ Definition out_eqb (a b : out) : bool :=
     (the attributes do not exist). *)
 Definition st_eqb (a b : st) : bool :=
   Bool.eqb (hasT a) (hasT b) &&
-  (if hasT a then Qlist_close (tab a) (tab b) && Qlist_close (vals a) (vals b) && Qeq_bool (rmin a) (rmin b) &&
-                  Qeq_bool (rmax a) (rmax b) && Bool.eqb (extrap a) (extrap b) else true) &&
+  (if hasT a then Qlist_close (tab a) (tab b) && Qlist_close (vals a) (vals b) && Qclose (rmin a) (rmin b) &&
+                  Qclose (rmax a) (rmax b) && Bool.eqb (extrap a) (extrap b) else true) &&
   mode_eqb (mlo a) (mlo b) && mode_eqb (mhi a) (mhi b) && Bool.eqb (adaptive a) (adaptive b) &&
   (cnt a =? cnt b)%nat && Qlist_eqb (pend a) (pend b).
 Definition obs_eqb (a b : out * st) : bool := out_eqb (fst a) (fst b) && st_eqb (snd a) (snd b).
